@@ -35,7 +35,7 @@ class St:
     def __init__(s, mems, union=False): s.mems, s.union = mems, union   # [(name|None, type)]
 
 SCAL = ['char', 'unsigned char', 'short', 'int', 'unsigned', 'long', 'float', 'double', '_Bool', 'char *', 'long double', 'unsigned long', 'unsigned short']
-BFT = {'int': 31, 'unsigned': 31, 'char': 7, 'long': 40, 'short': 15, 'unsigned char': 8}
+BFT = {'int': 32, 'unsigned': 32, 'char': 7, 'long': 64, 'unsigned long': 64, 'short': 15, 'unsigned char': 8}
 
 def gen_type(r, d, cnt):
     k = r.random()
@@ -107,8 +107,15 @@ class IG:
         if t.ty in ('float', 'double', 'long double'): return f'{v}.5', v + 0.5
         if t.ty == '_Bool': return str(v % 2), v % 2
         if t.bf:
-            lim = (1 << (t.bf - 1)) if t.ty not in ('unsigned', 'unsigned char') else (1 << t.bf)
-            v = v % lim; return str(v), v
+            uns = t.ty in ('unsigned', 'unsigned char', 'unsigned long')
+            lim = (1 << (t.bf - 1)) if not uns else (1 << t.bf)
+            k = s.r.random()
+            if k < 0.3: v = lim - 1 - (v % 4) % lim               # top of the field's range: the high bits of wide fields are set
+            elif k < 0.45 and not uns and lim > 1: v = -(v % lim)
+            else: v = v % lim
+            if t.bf > 31: s.feat.add('wide_bitfield')
+            txt = ('(%d)' % v) if v < 0 else (str(v) + ('UL' if v > 0x7fffffff else ''))
+            return txt, v
         if t.ty in ('char', 'unsigned char'):
             v = 97 + v % 26
             return (f"'{chr(v)}'" if s.r.random() < 0.5 else str(v)), v
@@ -191,16 +198,29 @@ class IG:
                         target_fr, target_pos, target_ty = newstack[-1], pos, ty; break
                     sub_m = getsub(fr, pos)
                     fr = [ty, 0, sub_m]
+                rng_hi = None
+                if ok and isinstance(target_fr[0], Ar) and r.random() < 0.3:
+                    # range designator [lo ... hi] as the last step: every element gets the value, the cursor continues after hi
+                    A_ = target_fr[0]; nmax = (A_.n if A_.n is not None else 5) - 1
+                    if target_pos < nmax:
+                        rng_hi = r.randint(target_pos + 1, min(nmax, target_pos + 2))
+                        text = text[:text.rindex('[')] + '[%d ... %d]' % (target_pos, rng_hi)
+                        s.feat.add('range_desig'); s.feat.add('nested_range_desig') if depth > 1 else None
                 if ok:
                     s.feat.add('desig');
                     if depth > 1: s.feat.add('nested_desig')
                     # the designated object gets its own initializer (scalar, braced, string) or, with a scalar
                     # initializer for an aggregate target, brace elision descends into it
-                    if isinstance(target_ty, Sc) or r.random() < 0.7 or (isinstance(target_ty, St) and target_ty.union and False):
-                        if old_touched(target_fr, target_pos):
+                    if isinstance(target_ty, Sc) or r.random() < 0.7 or rng_hi is not None:
+                        if any(old_touched(target_fr, q) for q in range(target_pos, (rng_hi if rng_hi is not None else target_pos) + 1)):
                             EXCL['D54'] += 1; continue
                         txt, val = s.init(target_ty)
                         setsub(target_fr, target_pos, val)
+                        if rng_hi is not None:
+                            import copy
+                            for q in range(target_pos + 1, rng_hi + 1):
+                                setsub(target_fr, q, copy.deepcopy(val))
+                            newstack[-1][1] = rng_hi + 1
                         items.append(text + ' = ' + txt); nitems += 1; stack = newstack
                     else:
                         # elided: descend to first leaf
@@ -286,7 +306,7 @@ class C05:
     level = 'exploration'
     rule = ('cases = (type, initializer) pairs: the type is drawn from scalars (incl. pointers initialised by address constants with offsets), arrays (also of unknown bound), '
             'structs/unions with bit-fields, unnamed bit-fields and anonymous members (depth<=3); the initializer is drawn by a stack machine over 6.7.9 (positional items, brace elision, '
-            'nested/out-of-order designators with cursor resumption, overrides of scalars, short lists, trailing commas, strings with and without braces, scalars in braces) and comes with a model of the object value. '
+            'nested/out-of-order designators and [lo ... hi] range designators with cursor resumption, bit-fields up to 64 bits wide holding values with their top bits set, overrides of scalars, short lists, trailing commas, strings with and without braces, scalars in braces) and comes with a model of the object value. '
             'The same text initialises a file-scope object, a static local, an automatic object in a dirtied frame and a compound literal; all dumps must equal the model, gcc and clang. '
             'non-trivial = uses a designator, brace elision, a string into a nested array, a union, or resumes after a nested designator; distinct by (type text, initializer text).')
     assumptions = ['gcc and clang implement 6.7.9; a case counts only if both agree with each other and with the model',
